@@ -23,8 +23,8 @@ func init() {
 			"under every tolerance pair, and seeded samples for the multi-confirmation / multi-assertion shapes, both signing layouts, lexical time forms (Z, +05:30, -08:00, no zone, 0..9 fraction digits with sub-ms parts that round to the target) and the artifact entry point (ArtifactResponse IssueInstant). " +
 			"Oracle: accept iff every bound holds (by >=1ms), reject iff one is violated (by >=1ms); mixed multi-assertion responses only require that the returned assertion satisfies all bounds. Non-trivial = response reached the time checks (accepted, or rejected with a time-related PrivateErr) ; distinct by lattice point x shape x tolerance x layout x lexical form.",
 		Assumptions: []string{"goxmldsig validates the oracle's own signatures correctly", "exact-boundary instants are not judged (only +-1ms)", "instants are compared after rounding to the millisecond, as RelaxedTime documents"},
-		FloorQuick:  5000,
-		FloorThor:   100000,
+		FloorQuick:  2500,
+		FloorThor:   8000,
 		Exhaustive:  true,
 		Run:         runC02,
 		LevelText:   "Exhaustive +-1ms boundary lattice over all five bounds for six tolerance settings on validly signed responses (which a fuzzer cannot produce), judged by an arithmetic oracle computed from the instants the generator chose; sampled for multi-confirmation/multi-assertion shapes. Held-on-observed.",
